@@ -5,11 +5,11 @@ package main
 // return sites, go/cfg for path rules.
 
 import (
-	"os"
 	"fmt"
 	"go/ast"
 	"go/token"
 	"go/types"
+	"os"
 	"strings"
 	"sync"
 
@@ -623,7 +623,20 @@ func (w *World) rulesParsePkg(p *Pkg, out *[]Obligation) {
 	if m.splitFn == nil {
 		ok, why, decided := p.checkRegionCutBounded(m)
 		if !decided {
-			ok, why = false, "the inline split of the element cannot be evaluated: undecided"
+			// a scanner fused with the split: the cut is observed where its result
+			// arrives — what Set is offered for elements with no ':' and with two
+			// (R01.scan's probes, a bounded observation like the one above)
+			if !p.scanDone {
+				w.rulesScan(p, func(bool, string, string, ast.Node, string) {})
+			}
+			switch {
+			case p.scanCutN > 0 && p.scanCutBad == "":
+				ok, why = true, fmt.Sprintf("(bounded check) the split is fused with the scanner; on %d probe vectors (an element without ':' and one with two, at three positions) Set is offered the part before and the part after the first ':'", p.scanCutN)
+			case p.scanCutN > 0:
+				ok, why = false, p.scanCutBad
+			default:
+				ok, why = false, "the inline split of the element cannot be evaluated: undecided"
+			}
 		}
 		add(ok, "R06.cut", "inline", m.splitAs, why)
 	} else if m.splitFn.Pkg() == p.P.Types {
